@@ -107,7 +107,7 @@ func init() {
 		PropCheck: "prop_bad_ids",
 		Gen:       c19Gen,
 		Run:       c19Run,
-		Rule:      "mixes of the listed operations (KMAC ComputeHash, BLS Sign/Verify, PoP generation and verification through the package-level PoP hasher, SPoCK, aggregate and batch verification, ECDSA Sign/Verify) over shared keys, messages (random, and the shapes empty / 1 byte / one cSHAKE block / 5000 bytes), valid/foreign/malformed signatures and one shared KMAC128 hasher; snapshot of every shared object before/after each operation run alone, then 2-8 (some cases 16 and 33) goroutines x repetitions compared with the sequential results; the list arguments (keys, messages, hashers, signatures) are checked element by element after every call, signatures / digests handed out are kept un-copied and re-read at the end; stress: distinct short inputs on one shared hasher, aggregate verification with repeated keys and hashers that differ per index, FIRST USE by 8 goroutines at once of key objects fresh from every constructor (decoded, aggregated, removed-from, derived, identity; BLS public and private, ECDSA public and private on both curves) by PoP / Encode / Verify / Sign / SPoCK / aggregate / batch verification and of a new KMAC128 hasher; cold: the same in a child process with nothing warmed up, incl. the package-level PoP hasher; the whole workload is repeated under the race detector; non-trivial if at least one operation returned a signature or true; distinct by (seed, op list, goroutines)",
+		Rule:      "mixes of the listed operations (KMAC ComputeHash, BLS Sign/Verify, PoP generation and verification through the package-level PoP hasher, SPoCK, aggregate and batch verification, ECDSA Sign/Verify) over shared keys, messages (random, and the shapes empty / 1 byte / one cSHAKE block / 5000 bytes), valid/foreign/malformed signatures and one shared KMAC128 hasher; snapshot of every shared object before/after each operation run alone, then 2-8 (some cases 16 and 33) goroutines x repetitions compared with the sequential results; the list arguments (keys, messages, hashers, signatures) are checked element by element after every call, signatures / digests handed out are kept un-copied and re-read at the end; stress: distinct short inputs on one shared hasher, aggregate verification with repeated keys and hashers that differ per index, FIRST USE by 8 goroutines at once of key objects fresh from every constructor (decoded, aggregated, removed-from, derived, identity; BLS public and private, ECDSA public and private on both curves) by PoP / Encode / Verify / Sign / SPoCK / aggregate / batch verification and of a new KMAC128 hasher; cold: the same in a child process with nothing warmed up, incl. the package-level PoP hasher; the whole workload is repeated under the race detector; non-trivial if at least one operation returned a signature or true; distinct by (seed, op list, goroutines); signature aggregation from every goroutine at once after failed aggregations (invalid point, wrong length, empty list)",
 		Shard:     60,
 	})
 }
@@ -173,6 +173,23 @@ func c19Setup(in c19In) (*c19Env, error) {
 		env.ecsigs = append(env.ecsigs, row)
 	}
 	env.bad = []crypto.Signature{crypto.BLSInvalidSignature(), make([]byte, 17)}
+	// right length and a well-formed header, refused at a later stage of parsing: x >= p (all ones; x = p), a
+	// curve point outside G1 (a genuine signature plus a cofactor-torsion point), x of no curve point
+	ff := bytes.Repeat([]byte{0xff}, 48)
+	ff[0] = 0x9f
+	xp := blsP.FillBytes(make([]byte, 48))
+	xp[0] |= 0x80
+	env.bad = append(env.bad, ff, xp)
+	tr := rand.New(rand.NewPCG(7, uint64(len(in.Seed))))
+	env.bad = append(env.bad, e1Compress(e1Add(e1Decompress(env.sigs[0][0]), e1Torsion(tr))))
+	for d := byte(1); d != 0; d++ {
+		c := append([]byte{}, env.sigs[0][0]...)
+		c[47] ^= d
+		if _, err := crypto.AggregateBLSSignatures([]crypto.Signature{c}); err != nil {
+			env.bad = append(env.bad, c)
+			break
+		}
+	}
 	_ = r
 	return env, nil
 }
@@ -225,12 +242,10 @@ func (env *c19Env) blsSig(o c19Op) crypto.Signature {
 	switch o.S {
 	case 1:
 		return env.sigs[(o.K+1)%len(env.sks)][o.M]
-	case 2:
-		return env.bad[0]
-	case 3:
-		return env.bad[1]
+	case 0:
+		return env.sigs[o.K][o.M]
 	}
-	return env.sigs[o.K][o.M]
+	return env.bad[(o.S-2)%len(env.bad)]
 }
 
 // run one operation; the result is canonicalised to a string
@@ -535,7 +550,7 @@ func (env *c19Env) apply(o c19Op) string {
 		if o.S == 1 {
 			p = env.pops[(o.K+1)%nb]
 		} else if o.S >= 2 {
-			p = env.bad[o.S-2]
+			p = env.bad[(o.S-2)%len(env.bad)]
 		}
 		return res(crypto.BLSVerifyPOP(env.pks[o.K], p))
 	case "spock":
@@ -543,7 +558,7 @@ func (env *c19Env) apply(o c19Op) string {
 		if o.S == 1 {
 			p2 = env.sigs[o.K2%nb][(o.M+1)%len(env.msgs)]
 		} else if o.S >= 2 {
-			p2 = env.bad[o.S-2]
+			p2 = env.bad[(o.S-2)%len(env.bad)]
 		}
 		return res(crypto.SPOCKVerify(env.pks[o.K], env.sigs[o.K][o.M], env.pks[o.K2%nb], p2))
 	case "spockdata":
@@ -560,7 +575,7 @@ func (env *c19Env) apply(o c19Op) string {
 		if o.S == 1 {
 			agg = env.sigs[0][o.M]
 		} else if o.S >= 2 {
-			agg = env.bad[o.S-2]
+			agg = env.bad[(o.S-2)%len(env.bad)]
 		}
 		pks := append([]crypto.PublicKey{}, env.pks...)
 		aggCopy := hx(agg)
@@ -591,7 +606,7 @@ func (env *c19Env) apply(o c19Op) string {
 		if o.S == 1 {
 			agg = env.sigs[0][o.M]
 		} else if o.S >= 2 {
-			agg = env.bad[o.S-2]
+			agg = env.bad[(o.S-2)%len(env.bad)]
 		}
 		pks := append([]crypto.PublicKey{}, env.pks...)
 		msCopy := append([][]byte{}, ms...)
@@ -674,7 +689,7 @@ func c19Gen(tier string, r *rand.Rand) []Case {
 			}
 			s := 0
 			if r.IntN(3) == 0 {
-				s = r.IntN(4)
+				s = r.IntN(8)
 			}
 			in.Ops = append(in.Ops, c19Op{Op: kind, K: r.IntN(in.NBLS), K2: r.IntN(in.NBLS), M: r.IntN(nm), S: s})
 		}
